@@ -992,13 +992,40 @@ def r_nonzero(f):
                 if k_ and k_ not in keys_:
                     keys_.append(k_)
         rets = []
+        # `_0 = tmp` / `_0 = !tmp` where tmp is a bool assigned on several branches (`a && b`, `!(a && b)`): judge the
+        # assignments of tmp instead, with the negation applied
+        ndefs = {}
+        for bl in bd["blocks"]:
+            for st in bl["stmts"]:
+                if st["k"] == "assign" and not st["p"]["proj"]:
+                    ndefs[st["p"]["local"]] = ndefs.get(st["p"]["local"], 0) + 1
+        watch = {0: False}
+        for bl in bd["blocks"]:
+            for st in bl["stmts"]:
+                if st["k"] == "assign" and st["p"]["local"] == 0 and not st["p"]["proj"]:
+                    rv = st["rv"]
+                    neg = False
+                    o = None
+                    if rv["k"] == "use":
+                        o = rv["o"]
+                    elif rv["k"] == "unop" and rv["op"] == "Not":
+                        o, neg = rv["o"], True
+                    if o is not None and o["k"] in ("copy", "move") and not o["p"]["proj"] and ndefs.get(o["p"]["local"], 0) >= 2:
+                        watch[o["p"]["local"]] = neg
+        indirect = set(watch) - {0}
 
         def sinks_(bb, si, node, states, keys):
-            if isinstance(node, dict) and node.get("k") == "assign" and node["p"]["local"] == 0 and not node["p"]["proj"]:
+            if isinstance(node, dict) and node.get("k") == "assign" and node["p"]["local"] in watch and not node["p"]["proj"]:
+                l_ = node["p"]["local"]
+                if l_ == 0 and indirect:
+                    rv = node["rv"]
+                    o = rv.get("o")
+                    if o is not None and o.get("k") in ("copy", "move") and o["p"]["local"] in indirect:
+                        return
                 for V in states:
                     vals = Z.val_rvalue(node["rv"], V) & {True, False}
                     for val in (vals or {True, False}):
-                        rets.append((val, V[gk_c], V[gk_r]))
+                        rets.append((val != watch[l_], V[gk_c], V[gk_r]))
         try:
             Z.run(keys_, [(gk_r, gk_c)], sinks_)
         except RecursionError:
